@@ -257,7 +257,7 @@ def run(ctx):
             if e.infeasible:
                 continue
             n_paths += 1
-            for den, node, fn in e.divisions:
+            for den, node, fn, _conds in e.divisions:
                 if fn is not db:
                     continue
                 if den == T.ZERO:
@@ -271,6 +271,26 @@ def run(ctx):
         ctx.refute("C06.div0", db.ident, loc_of(db, node),
                    f"division by {ast.unparse(node.right)} which is exactly 0 on the path [{path}] (full step accepted, so beta* == 1.0): ZeroDivisionError",
                    disc=ast.unparse(node.right).replace(" ", ""))
+
+    # ------------------------------------------------ denominators that can vanish are guarded
+    evg, _, _, _ = fold_db(repo, adaptive=True)
+    for den, node, fn, conds in evg.divisions:
+        if fn is not db or T.const_value(den) is not None:
+            continue
+        lf = T.linear_form(den)
+        if set(lf) - {()} and lf.get((), 0) != 0 and len([k for k in lf if k != ()]) == 1:
+            v = [k for k in lf if k != ()][0]
+            # den = c0 + c1*v vanishes at v0 = -c0/c1; temperatures live in [0, 1]
+            v0 = -T.Fraction(lf[()]) / T.Fraction(lf[v])
+            if not (0 <= v0 <= 1):
+                continue
+            pos = [c if pol else __import__("aspire_sa.evalr", fromlist=["negate"]).negate(c) for c, pol in conds]
+            flat = [q for p_ in pos for q in (p_[1] if p_[0] == "and" else (p_,))]
+            guarded = any(q[0] == "cmp" and q[1] in (">", "!=") and len(q) == 3 and q[2] in (den, T.neg(den)) for q in flat)
+            ctx.decide(guarded, "C06.guard", db.ident, loc_of(db, node),
+                       f"division by {ast.unparse(node.right)} is guarded by a test that excludes {ast.unparse(node.right)} == 0",
+                       f"division by {ast.unparse(node.right)}: the value {T.show(v)[:40]} can reach {v0} (temperatures are clamped to 1.0) and no enclosing test on *that* value excludes it: ZeroDivisionError",
+                       disc=ast.unparse(node.right).replace(" ", ""))
 
     # ------------------------------------------------ progress (ranking argument)
     e = Evaluator(repo, max_depth=1, no_inline={db.ident})
@@ -323,6 +343,10 @@ MUTANTS = [
     M("temperature updated from stale beta", _B, "beta, min_step = self.determine_beta(\n                    samples,\n                    beta,", "beta, min_step = self.determine_beta(\n                    samples,\n                    samples.beta,", "C06.once"),
     M("exit test skipped on some iterations", _B, "maybe_checkpoint()\n                if beta == 1.0 or (", "maybe_checkpoint()\n                if iterations % 2:\n                    continue\n                if beta == 1.0 or (", "C06.exit"),
     M("division by zero denominator", _B, "beta_min = 1.0\n            target_eff", "beta_min = 1.0\n            min_step = min_step / (beta_max - beta_min)\n            target_eff", "C06.div0"),
+]
+MUTANTS += [
+    M("rescale by the step actually taken, guard on the proposal", _B, "if self.adaptive_min_step and beta_star < 1.0:\n                min_step = min_step * (1 - beta_prev) / (1 - beta_star)\n            beta = max(beta_star, beta_prev + min_step)\n            beta = min(beta, 1.0)",
+      "beta = min(max(beta_star, beta_prev + min_step), 1.0)\n            if self.adaptive_min_step and beta_star < 1.0:\n                min_step = min_step * (1 - beta_prev) / (1 - beta)", "C06.guard"),
 ]
 NEUTRALS = [
     M("fixed step snap with another slack", _B, "if beta >= 1.0 - 0.5 * beta_step:", "if beta + 0.25 * beta_step >= 1.0:", within="SMCSampler.determine_beta"),
